@@ -21,3 +21,13 @@ func LW(l *list.List, site int32) *list.List {
 	}
 	return l
 }
+
+// AP marks the in-place write of append(s, ...): when the slice has spare capacity the new element lands in the
+// backing array at index len(s), which another slice may alias.
+func AP[S ~[]E, E any](s S, site int32) S {
+	if active && cap(s) > len(s) {
+		full := s[:cap(s)]
+		access(unsafe.Pointer(&full[len(s)]), site, true)
+	}
+	return s
+}
